@@ -1,5 +1,7 @@
 //! h8mon — runtime monitors for the Koge29 H8/3069F emulator (see /verif/DESIGN.md).
-#[path = "/repo/src"]
+// `repo_src` is a symlink to <repository>/src created by the driver (/verif/check): /repo/src unless
+// VERIF_REPO points the monitors at a scratch copy (mutation testing)
+#[path = "../repo_src"]
 mod repo {
     pub mod bus;
     pub mod cpu;
